@@ -143,14 +143,25 @@ class Names:
     def __init__(self, rng):
         self.rng = rng
         self.used = set()
+        self.used_lower = set()
 
     def fresh(self, first, alphabet, lo=2, hi=5, digits=True):
         while True:
             n = first + "".join(self.rng.choice(alphabet) for _ in range(self.rng.randint(lo, hi)))
             if digits and self.rng.random() < 0.3:
                 n += str(self.rng.randint(0, 9))
-            if n not in self.used and not n.endswith("s"):
+            if n.lower() not in self.used_lower and not n.endswith("s"):
                 self.used.add(n)
+                self.used_lower.add(n.lower())
+                return n
+
+    def fresh_mixed(self, first):
+        """a mixed-case spelling (`aStadqx`): its lower-case form is unique among all spellings"""
+        while True:
+            n = first + self.rng.choice(UPPER) + "".join(self.rng.choice(LOWER) for _ in range(self.rng.randint(2, 4)))
+            if n.lower() not in self.used_lower:
+                self.used.add(n)
+                self.used_lower.add(n.lower())
                 return n
 
 
@@ -183,7 +194,7 @@ def gen_spec(rng, size):
         vt = rng.choice(PREFIX_VALUES)
         sp["prefixes"].append({"name": nm.fresh("P", UPPER, 2, 4, False), "value": vt, "val": lit_value(vt),
                                "sym": nm.fresh(rng.choice("KMGNTZ"), UPPER, 0, 1, False) if rng.random() < 0.8 else None,
-                               "aliases": [nm.fresh("A", UPPER, 1, 3, False) for _ in range(rng.choice([0, 0, 1]))]})
+                               "aliases": [nm.fresh("B", UPPER, 1, 3, False) for _ in range(rng.choice([0, 0, 1]))]})
     # root (factor, {base: exp}) of every canonical unit, by the generator's own arithmetic
     root = {b["name"]: (F(1), {b["name"]: F(1)}) for b in sp["base"]}
     spell = {}                                      # spelling -> canonical
@@ -288,11 +299,20 @@ def gen_spec(rng, size):
         ds = rng.sample(pool, 2)
         sp["ddims"].append({"name": "[" + nm.fresh("x", LOWER) + "]",
                             "refs": [(ds[0], rng.choice([1, 2])), (ds[-1], rng.choice([-1, -2]))]})
-    # @alias lines
-    for _ in range(rng.randint(0, 2)):
-        tgt = rng.choice([u["name"] for u in sp["units"] if u["name"] not in nonmult] + [b["name"] for b in sp["base"]])
-        al = [nm.fresh("a", LOWER) for _ in range(rng.randint(1, 2))]
-        sp["alias_lines"].append({"name": rng.choice([s for s, c in spell.items() if c == tgt]), "aliases": al, "canon": tgt})
+    # @alias lines: an alias of a canonical name, of a symbol or inline alias, and of an alias that an earlier
+    # @alias line introduced; lower-case and mixed-case spellings
+    mult_targets = [u["name"] for u in sp["units"] if u["name"] not in nonmult] + [b["name"] for b in sp["base"]]
+    t1 = rng.choice(mult_targets)
+    sp["alias_lines"].append({"name": t1, "aliases": [nm.fresh_mixed("a")] + [nm.fresh("a", LOWER) for _ in range(rng.randint(0, 1))], "canon": t1})
+    others = [s for s, c in spell.items() if c in mult_targets and s != c]
+    if others:
+        s2 = rng.choice(others)
+        sp["alias_lines"].append({"name": s2, "aliases": [rng.choice([nm.fresh_mixed("a"), nm.fresh("a", LOWER)])], "canon": spell[s2]})
+    prev = rng.choice(sp["alias_lines"])
+    sp["alias_lines"].append({"name": rng.choice(prev["aliases"]), "aliases": [nm.fresh_mixed("a"), nm.fresh("a", LOWER)][:rng.randint(1, 2)], "canon": prev["canon"]})
+    if rng.random() < 0.5:
+        t4 = rng.choice(mult_targets)
+        sp["alias_lines"].append({"name": t4, "aliases": [nm.fresh("a", LOWER)], "canon": t4})
     # groups (their units may reference anything multiplicative defined above)
     for gi in range(rng.randint(1, 3)):
         g = {"name": nm.fresh("G", LOWER, 2, 3), "using": rng.sample([x["name"] for x in sp["groups"]], rng.randint(0, min(2, gi))),
@@ -435,10 +455,14 @@ def section_a(sp):
     return recs
 
 
-def render_files(sp, v, order=None):
+def render_files(sp, v, order=None, inline_aliases=False):
     """-> ({relative path: text}, records in file order with their printed line).  Section A is split over
     main.txt -> sub/part1.txt -> sub/part2.txt (nested @import, relative to the importing file)."""
     recs = section_a(sp)
+    if inline_aliases:          # the twin notation: every @alias spelling written inline on its unit's line
+        recs = [dict(r, aliases=list(r["aliases"])) if r["kind"] == "unit" else r for r in recs]
+        for a in sp["alias_lines"]:
+            [r for r in recs if r["kind"] == "unit" and r["name"] == a["canon"]][0]["aliases"].extend(a["aliases"])
     if order is not None:
         recs = [recs[i] for i in order]
     printed = [(r, print_def(v, r)) for r in recs]
@@ -450,7 +474,7 @@ def render_files(sp, v, order=None):
     main = com("generated definition file") + ["@import sub/part1.txt"] + [ln for _, ln in printed[cut2:]]
     body = []
     ind = "    " if v["id"] != 1 else ""
-    for a in sp["alias_lines"]:
+    for a in ([] if inline_aliases else sp["alias_lines"]):
         body.append(print_def(v, {"kind": "alias", "name": a["name"], "aliases": a["aliases"]}))
     after = []
     for g in sp["groups"]:
@@ -497,16 +521,16 @@ def write_files(root: Path, files):
 PATHS = ["file", "lines-ctor", "load_definitions", "define", "cache-cold", "cache-warm"]
 
 
-def build(path_kind, main: Path, nit, cache: Path | None = None):
+def build(path_kind, main: Path, nit, cache: Path | None = None, **kw):
     import pint
     if path_kind == "file":
-        return pint.UnitRegistry(str(main), non_int_type=nit, cache_folder=None)
+        return pint.UnitRegistry(str(main), non_int_type=nit, cache_folder=None, **kw)
     if path_kind in ("cache-cold", "cache-warm"):
-        return pint.UnitRegistry(str(main), non_int_type=nit, cache_folder=str(cache))
+        return pint.UnitRegistry(str(main), non_int_type=nit, cache_folder=str(cache), **kw)
     _, flat, stmts = def_lines(main)
     if path_kind == "lines-ctor":
-        return pint.UnitRegistry(flat, non_int_type=nit, cache_folder=None)
-    u = pint.UnitRegistry(None, non_int_type=nit, cache_folder=None)
+        return pint.UnitRegistry(flat, non_int_type=nit, cache_folder=None, **kw)
+    u = pint.UnitRegistry(None, non_int_type=nit, cache_folder=None, **kw)
     if path_kind == "load_definitions":
         u.load_definitions(flat)
     else:
@@ -612,7 +636,37 @@ def meaning_of(ureg, sp, sections=None):
             return tuple(out), tuple(res)
         ctxs[c["name"]] = safe(cx)
     m["contexts"] = ctxs
+    m["case-insensitive"] = casei_section(ureg, sp, True)
     return m
+
+
+def case_variants(sp):
+    """(string, expected canonical name) for case-insensitive lookup: every spelling with its tail upper-cased, fully
+    upper-cased, and (multiplicative units) behind two prefixes.  Prefixes are never case-folded; prefix spellings are
+    upper case and start with other letters than any unit spelling, so every string has one reading."""
+    out = []
+    pfx = sorted(sp["pspell"])[:2]
+    for s, c in sorted(sp["spell"].items()):
+        tail_up = s[0] + s[1:].upper()
+        for v in {tail_up, s.upper(), s[0] + s[1:].swapcase()}:
+            out.append((v, c))
+        if c not in sp["nonmult"]:
+            for p in pfx:
+                out.append((p + tail_up, sp["pspell"][p] + c))
+                out.append((p + s, sp["pspell"][p] + c))
+    return out
+
+
+def casei_section(ureg, sp, explicit):
+    """names found when the case of the unit part is ignored (explicit: per-call flag on a case-sensitive registry;
+    otherwise the registry itself was built with case_sensitive=False)"""
+    kw = {"case_sensitive": False} if explicit else {}
+    UC = ureg.UnitsContainer
+    out = {}
+    for v, _c in case_variants(sp):
+        out[v] = (safe(lambda: ureg.get_name(v, **kw)),
+                  safe(lambda: tuple((a, b) for a, b, _ in ureg.parse_unit_name(v, **kw))))
+    return out
 
 
 def types_of(ureg, sp):
@@ -863,10 +917,11 @@ def run(ck):
     ck.rule = ("(a) default_en.txt+constants_en.txt: every spelling's root factor/root units/dimensionality/name/symbol, every "
                "converter, prefix, dimension (Fraction registry, exact); Coq line reader and lexer on every definition line; "
                "(b) %d random definition files (units DAG with decimal factors, prefixes, aliases, symbols, offset and log units, "
-               "derived dimensions, @alias, groups with using, systems with both rule forms, contexts with relations, parameters "
+               "derived dimensions, @alias lines (of names, symbols, earlier aliases; also written inline in a twin file), groups with using, systems with both rule forms, contexts with relations, parameters "
                "and redefinitions, @defaults, nested @import, comments) x 6 permutations of the unit/prefix/dimension lines x 3 "
                "layouts x loading paths file / list to constructor / load_definitions / define() / cold / warm disk cache, and "
-               "non_int_type float/Decimal/Fraction; (c) one seeded fault per file from a catalogue of %d kinds. non-trivial = "
+               "non_int_type float/Decimal/Fraction, case_sensitive=False registries and lookups (case variants and prefixed case "
+               "variants of every spelling); (c) one seeded fault per file from a catalogue of %d kinds. non-trivial = "
                "distinct (file, variant, path, observation) / distinct strings" % (nfiles, len(LINE_LEVEL) + 15))
     ck.assumptions += [
         "the Python half of the reader (harness/t1_defs.py, harness/c10.py def_lines) resolves @import, recognises block "
@@ -1231,6 +1286,11 @@ def part_b_file(ck, rng, tmp, fi, sp, quirk, add, fail, stats, thorough, fgroups
                 for d in sp["dims"]:
                     if m0["dimensions"][d] != (True, ()):
                         fail("written-meaning:base-dimension", f"{d}: registry says {m0['dimensions'][d]}", dict(rp, name=d))
+                for vname, c in case_variants(sp):
+                    if m0["case-insensitive"][vname][0] != c:
+                        fail("written-meaning:case-insensitive-name", f"get_name({vname!r}, case_sensitive=False): the file says {c}, "
+                             f"the registry says {m0['case-insensitive'][vname]}", dict(rp, name=vname))
+                        break
                 for g, mem in exp_groups.items():
                     if m0["groups"].get(g) != mem:
                         fail("written-meaning:group-members", f"group {g}: written {mem}, registry {m0['groups'].get(g)}", dict(rp, group=g))
@@ -1330,6 +1390,51 @@ def part_b_file(ck, rng, tmp, fi, sp, quirk, add, fail, stats, thorough, fgroups
                             key = f"path-dependence:{section}:{pk}"
                         fail(key, f"{label} via {pk}: {section} differs from the reference reading: {diff}"[:500], dict(rp, path=pk, section=section))
                 ck.count(f"path:{pk}")
+            # ---- a registry built with case_sensitive=False, through every path: the names are those written
+            if is_ref or (oi == 1 and v["id"] == 1):
+                want = dict(case_variants(sp))
+                for pk in PATHS:
+                    try:
+                        u = build(pk, main, F, vdir / "cache_ci", case_sensitive=False)
+                        stats["registries"] += 1
+                        got = casei_section(u, sp, False)
+                        for vname, c in want.items():
+                            if got[vname][0] != c:
+                                fail(f"case-insensitive-registry:{pk}", f"{label}: UnitRegistry(case_sensitive=False) via {pk}: {vname!r} should be {c} "
+                                     f"(written as a spelling of it), registry says {got[vname]}", dict(rp, path=pk, name=vname, case_sensitive=False))
+                                break
+                        for sname in sorted(sp["spell"]):
+                            if safe(lambda: u.get_name(sname)) != sp["spell"][sname]:
+                                fail(f"case-insensitive-registry:exact:{pk}", f"{label}: {sname!r} not found in its exact case", dict(rp, path=pk, name=sname))
+                                break
+                    except Exception as e:
+                        fail(f"load-failed:case-insensitive:{pk}", f"{label}: {e!r}"[:300], dict(rp, path=pk))
+                    ck.case(key=("b-ci", fi, oi, v["id"], pk))
+                ck.count("case-insensitive registries", len(PATHS))
+            # ---- the same aliases written inline on the unit line instead of by @alias: same names, same meaning
+            if is_ref or (oi == 2 and v["id"] == 2):
+                tdir = vdir / "twin"
+                tfiles, _p = render_files(sp, v, order, inline_aliases=True)
+                tmain = write_files(tdir, tfiles)
+                for pk in ("file", "load_definitions", "define", "cache-warm"):
+                    try:
+                        if pk == "cache-warm":
+                            build("cache-cold", tmain, F, tdir / "cache")
+                        ut = build(pk, tmain, F, tdir / "cache")
+                        stats["registries"] += 1
+                        mt = meaning_of(ut, sp)
+                    except Exception as e:
+                        fail(f"load-failed:inline-aliases:{pk}", f"{label}: {e!r}"[:300], dict(rp, files=tfiles, path=pk))
+                        continue
+                    md = per_path[pk][1]
+                    if isinstance(md, dict):
+                        for section in ("units", "probes", "prefixes", "case-insensitive", "groups", "systems"):
+                            if mt[section] != md[section]:
+                                fail(f"notation-dependence:alias-inline-vs-directive:{section}:{pk}",
+                                     f"{label} via {pk}: {section} differs between aliases written inline and by @alias: "
+                                     f"{first_diff(mt[section], md[section])}"[:500], dict(rp, twin_files=tfiles, path=pk, section=section))
+                    ck.case(key=("b-twin", fi, oi, v["id"], pk))
+                ck.count("inline-alias twins", 4)
             # ---- numeric kinds: the same folder for the three types (float first): the cache must be keyed by type
             if is_ref or (oi == 1 and v["id"] == 1):
                 shared = vdir / "cache_shared"
